@@ -111,6 +111,10 @@ func runReplay(casesPath, out string) {
 				nonCanonAccepted++
 			}
 		}
+		if budget.Hung {
+			r.Extra["stopped_after_hang_at_case"] = c.ID // the hung goroutines cannot be stopped: do not pile up more
+			break
+		}
 		if len(r.Samples) < 4 && i%(len(cs)/4+1) == 0 {
 			r.Samples = append(r.Samples, map[string]any{"case": c.ID, "bytes": hex.EncodeToString(clip(x, 96)), "len": len(x),
 				"model": verdictStr(c.OK), "real": o.Verdict, "reencodes_identically": o.Same, "size": o.Size, "err": clipS(o.Err, 120)})
